@@ -13,9 +13,11 @@ name=$(basename "$demo" .rs)
 dest=$(grep -oE "flussab[a-z0-9-]*/(tests|examples)/$name\.rs" "$D/README.md" | head -1)
 [ -n "$dest" ] || { echo "cannot find demo destination in README"; exit 2; }
 crate=${dest%%/*}; kind=$(echo "$dest" | cut -d/ -f2)
+# some changes only manifest without overflow checks / debug assertions
+REL=""; grep -E "cargo (test|run).*$name" "$D/README.md" | grep -q -- "--release" && REL="--release"
 run_demo() {
   mkdir -p "$WT/$crate/$kind"; cp "$demo" "$WT/$dest"
-  if [ "$kind" = tests ]; then (cd "$WT" && cargo test --offline -p "$crate" --test "$name" >/tmp/fv-demo-$$.log 2>&1); else (cd "$WT" && cargo run --offline -p "$crate" --example "$name" >/tmp/fv-demo-$$.log 2>&1); fi
+  if [ "$kind" = tests ]; then (cd "$WT" && cargo test --offline $REL -p "$crate" --test "$name" >/tmp/fv-demo-$$.log 2>&1); else (cd "$WT" && cargo run --offline $REL -p "$crate" --example "$name" >/tmp/fv-demo-$$.log 2>&1); fi
   rc=$?; rm -f "$WT/$dest"; rmdir "$WT/$crate/$kind" 2>/dev/null; return $rc
 }
 run_demo; clean_rc=$?
@@ -25,7 +27,7 @@ passed=$(grep -E "^test result: ok" /tmp/fv-suite-$$.log | sed -E 's/.*ok\. ([0-
 run_demo; patched_rc=$?
 fail_line=$(grep -m1 -E "panicked|FAILED|assert" /tmp/fv-demo-$$.log | cut -c1-200)
 rm -f /tmp/fv-demo-$$.log /tmp/fv-suite-$$.log
-echo "seeded=$(basename "$(dirname "$D")")/$(basename "$D") demo=$dest clean_tree_demo_rc=$clean_rc suite_with_patch_rc=$suite_rc suite_tests_passed=$passed patched_demo_rc=$patched_rc"
+echo "seeded=$(basename "$(dirname "$D")")/$(basename "$D") demo=$dest profile=${REL:-debug} clean_tree_demo_rc=$clean_rc suite_with_patch_rc=$suite_rc suite_tests_passed=$passed patched_demo_rc=$patched_rc"
 echo "  first failure line with patch: $fail_line"
 [ $clean_rc -eq 0 ] && [ $suite_rc -eq 0 ] && [ $patched_rc -ne 0 ] && { echo "  CONFIRMED"; exit 0; }
 echo "  NOT CONFIRMED"; exit 1
